@@ -169,6 +169,14 @@ fn exec(c: &Value) -> R {
                 vdaf_result::<_, 32>(Prio2::new(n), usable, || vec![1u32; n])
             }
             "rational" => okerr(Rational::from_unsigned(s(c, "n_s") as u64, s(c, "d_s") as u64)),
+            "rational_f32" => {
+                let x: f32 = c["lit"].as_str().unwrap().parse().unwrap();
+                match Rational::try_from(x) {
+                    // usable: a budget can be built from it unless it is zero
+                    Ok(r) => { let _ = PureDpBudget::new(r); Out::Ok }
+                    Err(_) => Out::Err,
+                }
+            }
             "zcdp_budget" => okerr(ZCdpBudget::new(Rational::from_unsigned(s(c, "n_s") as u64, s(c, "d_s") as u64).unwrap())),
             "puredp_budget" => okerr(PureDpBudget::new(Rational::from_unsigned(s(c, "n_s") as u64, s(c, "d_s") as u64).unwrap())),
             "laplace_new" => okerr(DiscreteLaplace::new(Rational::from_unsigned(s(c, "n_s") as u64, s(c, "d_s") as u64).unwrap())),
